@@ -22,7 +22,7 @@ func fifoConfig(s Spec, epoch int64) vnet.Config {
 	cfg := baseConfig(s, r, Opt{Ns: []int{1, 2, 3, 4, 4, 5, 7}, MinH: 3, MaxH: 4, Dyn: 1})
 	cfg.Epoch = epoch
 	cfg.GenesisTs = uint64(epoch) - uint64(cfg.TPB)
-	cfg.K = vnet.Knobs{Sync: true, FIFO: true, SlowNode: -1}
+	cfg.K = vnet.Knobs{Sync: true, FIFO: true, SlowNode: -1, ResetDelayNode: -1}
 	cfg.LatMin = cfg.TPB / time.Duration(pickInt(r, []int{100, 50, 20}))
 	cfg.LatMax = cfg.LatMin
 	if cfg.BaseHeight == 0 {
